@@ -154,7 +154,11 @@ static std::string reg(int g, const std::vector<Node> &ns, bool lib) {
   std::string out = "ok";
   for (const Node &n : ns) {
     out += " n" + std::to_string(nodes.size());
-    nodes.push_back(NodeRef{g, n});
+    // kept through copy construction + move assignment into an existing handle (as a container of Nodes does)
+    Node tmp(n);
+    NodeRef r{g, Node()};
+    r.n = std::move(tmp);
+    nodes.push_back(std::move(r));
   }
   silent[g].push_back(lib);
   return out;
@@ -278,6 +282,12 @@ static std::string exec(const std::vector<std::string> &w) {
     Node a = node_of(w[2]);
     // the library's own operator, registered on graph g (functions::stop_gradient would use a's graph)
     return reg(g, graphs[g]->add_operator(std::unique_ptr<Operator>(new operators::StopGradient()), {a}), true);
+  }
+  if (op == "F" && w.size() == 3) {
+    int g = gidx(w[1]);
+    Node a = node_of(w[2]);
+    // the library's Flatten operator: forward returns a view sharing the argument's memory (copy-on-write must protect it)
+    return reg(g, graphs[g]->add_operator(std::unique_ptr<Operator>(new operators::Flatten()), {a}), true);
   }
   if (op == "R" && w.size() == 2) {
     int g = gidx(w[1]);
